@@ -66,3 +66,60 @@ def config_probe(calls, direction, config, expects=None):
     labels = ["logging=%s" % cfg.get("logging"), "opt=%s" % cfg.get("PYTHONOPTIMIZE"), "stdout=%s" % (cfg.get("stdout") or cfg.get("PYTHONIOENCODING")),
               "warnings=%s" % cfg.get("PYTHONWARNINGS"), "env-vars-read=%d" % len(r["env_reads"])]
     return r["verdicts"], labels, {"env_probes": probes, "calls": len(calls)}
+
+
+# ---- a whole unit's oracle re-run inside a configured interpreter ---------------------------------------------------------
+
+def unit_under_config(prop, unit_name, n_cases=6, exclude=(), doc=None, quick=16, thorough=300):
+    """Build a Unit that draws n_cases cases of an existing unit plus a configuration, runs that unit's check() on them in
+    a fresh interpreter under the configuration, and then once more for every value of every environment variable the
+    repository code was seen reading.  `exclude`: configuration keys forced to None for this property."""
+    from hypothesis import strategies as st
+    from .runner import Inconclusive, Unit, _load_module
+
+    def strategy():
+        mod = _load_module(prop)
+        base = next(u for u in mod.UNITS if u.name == unit_name)
+
+        @st.composite
+        def draw_case(draw):
+            cfg = draw(configrun.configs)
+            for k in exclude:
+                cfg[k] = None
+            if draw(st.integers(0, 3)) == 0 and "LC_ALL" not in exclude:
+                cfg = configrun.with_ascii_locale(cfg)
+            return {"cases": [draw(base.strategy()) for _ in range(draw(st.integers(2, n_cases)))], "config": cfg}
+        return draw_case()
+
+    def check(case):
+        corpus = {"prop": prop, "unit": unit_name, "cases": case["cases"]}
+        cfg = case["config"]
+        shown = {k: v for k, v in cfg.items() if v}
+
+        def run(extra=None):
+            r = configrun.run_child("unit", corpus, dict(cfg, extra_env=extra or {}), timeout=600)
+            if not isinstance(r, dict) or "results" not in r:
+                raise Inconclusive("child interpreter failed under %r: %s" % (shown, (r.get("stderr", "")[-400:] if isinstance(r, dict) else r)))
+            for i, x in enumerate(r["results"]):
+                if x and "violation" in x:
+                    raise Violation("%s [unit %s, case %d, in a fresh interpreter under configuration %r%s]" % (
+                        x["violation"], unit_name, i, shown, (" with " + repr(extra)) if extra else ""),
+                        bucket=(x.get("bucket") or "violation") + " (configuration)")
+                if x and "error" in x:
+                    raise Inconclusive("harness error in child under %r: %s\n%s" % (shown, x["error"], x.get("trace", "")))
+            return r
+        r = run()
+        probes = 0
+        for key in r["env_reads"]:
+            for val in ENV_VALUES:
+                run({key: val})
+                probes += 1
+        return {"nontrivial": True, "labels": ["opt=%s" % cfg.get("PYTHONOPTIMIZE"), "warnings=%s" % cfg.get("PYTHONWARNINGS"),
+                                               "logging=%s" % cfg.get("logging"), "ioenc=%s" % cfg.get("PYTHONIOENCODING"),
+                                               "env-vars-read=%d" % len(r["env_reads"])],
+                "count": {"cases_in_child": len(case["cases"]), "env_probes": probes}}
+
+    return Unit("config_" + unit_name, check, strategy=strategy, quick=quick, thorough=thorough, shards_quick=8, shrink=False,
+                doc=doc or ("the oracle of unit %r re-run in fresh interpreters under drawn configurations (-O, warnings filter, logging level, "
+                            "stdout encoding, locale, TZ, hash seed, pre-imports, cwd) and under every value of every environment variable the "
+                            "library is seen reading" % unit_name))
